@@ -11,9 +11,14 @@ type SharedFG struct {
 	Only string
 }
 
-func (c SharedFG) Name() string       { return "sharedfg" }
-func (c SharedFG) Initial() Src       { return Src{"v": "1"} }
-func (c SharedFG) Edits(s Src) []Edit { return nil }
+func (c SharedFG) Name() string { return "sharedfg" }
+func (c SharedFG) Initial() Src { return Src{"v": "1"} }
+func (c SharedFG) Edits(s Src) []Edit {
+	if s["v"] == "1" {
+		return []Edit{{Name: "v=2", Src: Src{"v": "2"}, Kind: "content-of-the-shared-generated-file"}}
+	}
+	return []Edit{{Name: "v=1", Src: Src{"v": "1"}, Kind: "content-of-the-shared-generated-file"}}
+}
 
 func (c SharedFG) Files(s Src) map[string]string {
 	gen := fmt.Sprintf("genrule(name=\"g\", outs=[\"g1.txt\", \"g2.txt\"], cmd=%q, visibility=[\"PUBLIC\"])\n",
